@@ -21,11 +21,11 @@ CONFIG = dict(
         "PARTIAL: `every task accepted earlier runs before stop reports success` and the stop/submit races are schedule properties of do_stop / EventLoop::start (threads, condvars) and are not decided here",
         "dashmap shim: sequential map contract plus the real crate's locking precondition (a write while a reference into the map is alive is a deadlock)",
         "once_cell, num_cpus, crossbeam-skiplist, corosensei shims; catch_unwind call-through; format! stubbed",
-        "at most 2 registered waiters (shim capacity 3)",
+        "at most 2 registered waiters (shim capacity 3); stop(): try_timeout_schedule_task, thread::sleep, the clock and the task queue's is_empty() are contract stubs (<= 2 scheduling rounds)",
     ],
     bounds="state guard obligations: full 3-state domain, loop-free; do_clean: <= 2 registered waiters, all task ids",
     manifest=dict(
-        text="Proof (partial claim). On a pool built by the real constructor: from every pool state each lifecycle operation moves the state at most one step forward along Running->Stopping->Stopped and a refused call changes nothing; a submission in Stopping/Stopped is rejected and leaves queue, maps and state untouched; after the final clean-up every task id with a registered waiter has an error result, its waiter is released and unregistered, and the map operations respect the dependency's locking precondition (so the clean-up itself cannot block forever). Not decided: that every accepted task runs before stop reports success, and submit/stop races (schedule properties).",
+        text="Proof (partial claim). On a pool built by the real constructor: from every pool state each lifecycle operation moves the state at most one step forward along Running->Stopping->Stopped and a refused call changes nothing; a submission in Stopping/Stopped is rejected and leaves queue, maps and state untouched; after the final clean-up every task id with a registered waiter has an error result, its waiter is released and unregistered, and the map operations respect the dependency's locking precondition (so the clean-up itself cannot block forever); and, with the scheduling rounds represented by their contract (workers may or may not finish, scheduling may fail, the time limit is reached by the second round), whenever stop() reports success - from Running, Stopping or Stopped, with or without work still running - the pool is Stopped and every registered waiter has been settled. Not decided: that every accepted task runs before stop reports success, and submit/stop races (schedule properties).",
         note="Trusted: dashmap shim incl. its locking contract, once_cell/num_cpus/crossbeam-skiplist/corosensei shims, catch_unwind call-through. Sequential only; <= 2 waiters.",
         technique="contract-based deductive verification: Kani harness contracts on the real pool (state guard, submit guard, clean-up) with the dependency's locking precondition as a callee contract",
     ),
